@@ -136,6 +136,9 @@ func verifyVia(x *X, ep string, env *gobl.Envelope, keyIdx int, chunk int) (ok b
 		}
 	}()
 	data := Marshal(env)
+	if x.rawPresent != nil {
+		data = x.rawPresent
+	}
 	switch ep {
 	case epLib:
 		var err error
